@@ -72,6 +72,16 @@ def run_case(case, rep, record=True):
                 compare_reset([e.reset() for e in envs], envs, h, "reset")
                 h.mst = spec.initial()
                 continue
+            if op[0] == "v":
+                for e in envs:
+                    h.env = e
+                    try:
+                        walk.do_query(h, op[1])
+                    finally:
+                        h.env = envs[0]
+                if record:
+                    rep.count("queries")
+                continue
             if op[0] in ("g", "o", "b"):
                 continue
             act = h.choose(op)
@@ -175,7 +185,7 @@ class _Runner:
 def _shard(shard, seed, tier, n_cases):
     rep = Reporter(PID, tier, RULE)
     strat = engine.case_strategy(tier, dict(extras=True), weights=(12, 3, 5), min_ops=10, max_ops=50,
-                                 resets=True, gens=False)
+                                 resets=True, gens=False, queries=True)
     engine.drive(_Runner(rep), strat, n_cases, seed)
     return rep
 
